@@ -62,7 +62,7 @@ def main():
             guard="hydro_project_hydro_verif",
             enable="cargo feature `hydro_project_hydro_verif` on the hooked crates (enabled by the harness crates' path dependencies)",
             baseline_off_cmd="cd /repo && cargo nextest run --workspace --no-fail-fast --test-threads 8 --offline || cargo test --workspace --no-fail-fast --offline",
-            source_commits=[],
+            source_commits=["f98a6666fd7", "1f1ad967d9a"],
             add_only=True,
         ),
         engines=[dict(name="kani-cbmc", path="/verif/check", serves_properties=sorted(CLAIMED),
